@@ -284,11 +284,12 @@ theorem box_tet_count (a b c : Nat) (ha : 1 ≤ a) (hb : 1 ≤ b) (hc : 1 ≤ c)
   push_cast [Nat.cast_sub ha, Nat.cast_sub hb, Nat.cast_sub hc]
   ring
 
-/-- **`mu3` of a solid box is `abc`** (with `sqrt` as a parameter `sq`): the
+/-- **`mu3` of a solid box is `abc`, arithmetic step** (the whole-loop statement is
+    `lips3_box_volume` in Props/C15B; `sqrt` as a parameter `sq`): the
     `6 (n₀−1)(n₁−1)(n₂−1)` tetrahedra of `box_tet_count`, each of volume
     `sq(v2)/6` with `v2 = (h₀h₁h₂)²` (`tetV2_box_cell`), add up to the product
     of the edge lengths `(n_i − 1) h_i` measured in the supplied coordinates. -/
-theorem lips3_box_volume (n0 n1 n2 : Nat) (h0 h1 h2 : Rat) (sq : Rat → Rat)
+theorem box_volume_arith (n0 n1 n2 : Nat) (h0 h1 h2 : Rat) (sq : Rat → Rat)
     (hsq : sq ((h0 * h1 * h2) ^ 2) = h0 * h1 * h2) :
     (6 * ((n0 : Rat) - 1) * ((n1 : Rat) - 1) * ((n2 : Rat) - 1)) * (sq ((h0 * h1 * h2) ^ 2) / 6)
       = (((n0 : Rat) - 1) * h0) * (((n1 : Rat) - 1) * h1) * (((n2 : Rat) - 1) * h2) := by
@@ -384,7 +385,7 @@ theorem quasi_add_value (a b c : Quasi) (h : a.add b = some c) (x r : Rat)
 
 /-! ## Non-vacuity -/
 
-/-- `hsq` of `lips3_box_volume` only asks `sq` for the non-negative root at one argument
+/-- `hsq` of `box_volume_arith` only asks `sq` for the non-negative root at one argument
     (steps 2, 1, 1/2: `sq 1 = 1`) -/
 example : (fun _ : Rat => (1 : Rat)) (((2 : Rat) * 1 * (1 / 2)) ^ 2) = 2 * 1 * (1 / 2) := by norm_num
 
